@@ -7,5 +7,6 @@ CONSTANTS
   InitFree = {63, 64, 127}
   InitOffset = 1
   DoubleClear = TRUE
+  RaceClear = FALSE
 INVARIANTS TypeOK Unique HeldMarked Range Reserved CountNonNeg CountExact AvailableExact NoFalseExhaustion
 PROPERTIES DoubleClearHarmless Terminates
